@@ -75,9 +75,10 @@ impl Checker for C09 {
         }
         let n = ex.calls_last;
         let mut seen = std::collections::BTreeSet::new();
-        // an explicit unmount() exists to report errors: with no handle alive, nothing may be left for the destructor
-        // of the file system to write (errors there can only be logged)
-        if matches!(op, Op::Remount) && ex.model_pre.fh.iter().all(Option::is_none) && ex.model_pre.dh.iter().all(Option::is_none) {
+        // an explicit unmount() exists to report errors: nothing may be left for the destructor of the file system to
+        // write (errors there can only be logged). Handles that were still open have been dropped before the unmount
+        // and before this operation's log window starts.
+        if matches!(op, Op::Remount) {
             if let Some(r) = ex.log.iter().find(|r| r.kind == Kind::Write && r.in_drop) {
                 v.push(("C09/unmount-leaves-writes-to-the-destructor".into(), format!("fault-free unmount(): write of {} bytes at offset {} issued from a destructor", r.len, r.off)));
             }
